@@ -19,7 +19,7 @@ import (
 func init() {
 	register(&propDef{
 		id:      "C33",
-		explain: "Structural necessary conditions of 'in-memory pipes and the in-memory listener behave like reliable byte streams / a listener', on every path of the functions named (no interleaving is explored): (L1) InmemoryListener.DialWithLocalAddr returns a connection with a nil error only on paths on which the server end was handed to the accept queue, and on every error return both ends of the freshly made pipe were closed; (L2) InmemoryListener.Accept, once it has taken a connection from the queue, either signals the dialer and returns that connection with a nil error, or closes it and returns an error - it never drops it; (L3) Close of the listener closes the done channel only under a false 'closed' flag, raises the flag after, both under the listener's lock; (P1) pipeConn.Write reports success exactly on the paths on which the data buffer was handed to the peer's queue; (P2) the reader moves on to the next buffer only when the current one is exhausted (so nothing unread is dropped); (P3) the reader reports end-of-stream or a timeout only after a non-blocking look at the queue, made after the blocking wait was ended by the stop or deadline signal, found it empty (bytes written before Close stay readable); (P4) PipeConns.Close closes the stop channel at most once, under its lock, and (E8) the deadline channel and the closed flag are only accessed under their locks. Not decided: ordering and content of the bytes under interleavings, deadlines, blocking behaviour, fairness between Dial and Close.",
+		explain: "Structural necessary conditions of 'in-memory pipes and the in-memory listener behave like reliable byte streams / a listener', on every path of the functions named (no interleaving is explored): (L1) InmemoryListener.DialWithLocalAddr returns a connection with a nil error only on paths on which the server end was handed to the accept queue, and on every error return both ends of the freshly made pipe were closed; (L2) InmemoryListener.Accept, once it has taken a connection from the queue, either signals the dialer and returns that connection with a nil error, or closes it and returns an error without having signalled the dialer (the signal is what makes the dial succeed) - it never drops it; (L3) Close of the listener closes the done channel only under a false 'closed' flag, raises the flag after, both under the listener's lock; (P1) pipeConn.Write reports success exactly on the paths on which the data buffer was handed to the peer's queue; (P2) the reader moves on to the next buffer only when the current one is exhausted (so nothing unread is dropped); (P3) the reader reports end-of-stream or a timeout only after a non-blocking look at the queue, made after the blocking wait was ended by the stop or deadline signal, found it empty (bytes written before Close stay readable); (P4) PipeConns.Close closes the stop channel at most once, under its lock, and (E8) the deadline channel and the closed flag are only accessed under their locks. Not decided: ordering and content of the bytes under interleavings, deadlines, blocking behaviour, fairness between Dial and Close.",
 		run:     runC33,
 	})
 }
@@ -159,7 +159,9 @@ func runC33(p *Prog, r *Report) {
 				case True:
 					ok = st.Has(bSignalled) && !st.Has(bClosed)
 				case False:
-					ok = st.Has(bClosed)
+					// the 'accepted' signal is what makes the dial succeed: it must not be given on a path that
+					// then closes the connection and reports an error
+					ok = st.Has(bClosed) && !st.Has(bSignalled)
 				}
 				if !ok {
 					bad++
